@@ -334,8 +334,7 @@ func main() {
 				in.Providers[i].Reply = nil
 			}
 			in.Sent = nil
-			o := run(&in, rng)
-			out.Emit(in, o)
+			out.EmitGuarded(in, Obs{Panic: true}, func() (any, any) { o := run(&in, rng); return in, o })
 		}
 	}
 	if vh.OnlyReplay() {
@@ -360,8 +359,7 @@ func main() {
 			perm[i], perm[j] = perm[j], perm[i]
 		}
 		in.Order = perm
-		o := run(&in, rng)
-		out.Emit(in, o)
+		out.EmitGuarded(in, Obs{Panic: true}, func() (any, any) { o := run(&in, rng); return in, o })
 	}
 	// every class alone and next to an honest provider
 	for _, c := range classes[2:] {
